@@ -7,8 +7,10 @@
    split sl = p ++ s; `live s v` = some operation of s reads v and none defines it; `wf_prog` = SSA;
    `io_ok` = an in/out operand dies at its in/out use (documented contract of HasRegisterConstraints);
    `forced_ok` = the registers the INPUT forces (pre-assigned, propagated through in/out ties) do not
-   themselves clash; `input_ok` = no pre-assigned infinite register, every pre-assigned pool register
-   is seen by allocate_func's exclusion, zero is neither allocatable nor pre-assigned, pool >= 0.
+   themselves clash; `input_ok` = zero is neither allocatable nor pre-assigned, pool >= 0.
+   The model is that of /repo after the repairs d11e3b9 (RegisterStack.push / exclude_register) and
+   26a8b63 (allocate_func excludes every pre-assigned register); the code before them is kept as
+   `allocate_func_old` for the two recorded refutations.
    The theorems are for the straight-line fragment (`map Simple sl`), any size, any pool, any
    pre-assignment; `zr` = RISC-V zero rule on/off (off = x86). *)
 From Coq Require Import ZArith List Bool.
@@ -136,34 +138,31 @@ Proof.
 Qed.
 Print Assumptions C19_semantics.
 
-(* Refutations: the two input clauses that correspond to recorded findings are necessary -- with all
-   other hypotheses in force, the faithful model of the unchanged allocator puts two live values
-   into one register (the witnesses are replayed on the real code by the harness). *)
-Theorem C19_infinite_preassigned_refuted :
+(* Recorded refutations of the allocator BEFORE the repairs (known_findings.d/C19.json: fixed): on
+   inputs satisfying every hypothesis above, the faithful model of the old code put two live values
+   into one register; the repaired model separates them / fails explicitly. *)
+Theorem C19_infinite_preassigned_old_refuted :
   exists zr pool allow pre sl af p s v1 v2 r,
     let fn := mkFunc pre (map Simple sl) in
-    wf_prog sl /\ io_ok sl /\ forced_ok (ty0 fn) sl
-    /\ (forall v q, ty0 fn v = Some q -> In q pool -> In q (used_registers fn))
-    /\ (zr = true -> ~ In 0 pool /\ forall v, ty0 fn v <> Some 0)
-    /\ (forall q, In q pool -> 0 <= q)
-    /\ allocate_func zr pool allow fn = Ok af
+    input_ok zr pool fn /\ wf_prog sl /\ io_ok sl /\ forced_ok (ty0 fn) sl
+    /\ allocate_func_old zr pool allow pre sl = Ok af
     /\ sl = p ++ s /\ live s v1 /\ live s v2 /\ v1 <> v2
-    /\ ty af v1 = Some r /\ ty af v2 = Some r /\ r <> 0.
-Proof. exact infinite_preassigned_refuted. Qed.
-Print Assumptions C19_infinite_preassigned_refuted.
+    /\ ty af v1 = Some r /\ ty af v2 = Some r /\ r <> 0
+    /\ match allocate_func zr pool allow fn with
+       | Ok af' => ty af' v1 <> ty af' v2 | Err _ => False end.
+Proof. exact infinite_preassigned_old_refuted. Qed.
+Print Assumptions C19_infinite_preassigned_old_refuted.
 
-Theorem C19_unexcluded_preassigned_refuted :
+Theorem C19_unexcluded_preassigned_old_refuted :
   exists zr pool allow pre sl af p s v1 v2 r,
     let fn := mkFunc pre (map Simple sl) in
-    wf_prog sl /\ io_ok sl /\ forced_ok (ty0 fn) sl
-    /\ (forall v q, ty0 fn v = Some q -> 0 <= q)
-    /\ (zr = true -> ~ In 0 pool /\ forall v, ty0 fn v <> Some 0)
-    /\ (forall q, In q pool -> 0 <= q)
-    /\ allocate_func zr pool allow fn = Ok af
+    input_ok zr pool fn /\ wf_prog sl /\ io_ok sl /\ forced_ok (ty0 fn) sl
+    /\ allocate_func_old zr pool allow pre sl = Ok af
     /\ sl = p ++ s /\ live s v1 /\ live s v2 /\ v1 <> v2
-    /\ ty af v1 = Some r /\ ty af v2 = Some r /\ r <> 0.
-Proof. exact unexcluded_preassigned_refuted. Qed.
-Print Assumptions C19_unexcluded_preassigned_refuted.
+    /\ ty af v1 = Some r /\ ty af v2 = Some r /\ r <> 0
+    /\ allocate_func zr pool allow fn = Err OutOfRegisters.
+Proof. exact unexcluded_preassigned_old_refuted. Qed.
+Print Assumptions C19_unexcluded_preassigned_old_refuted.
 
 (* The hypotheses are satisfiable by a non-trivial program (zero constant, pre-assigned a0 that is in
    the pool and gets excluded, a register reused by two consecutive values). *)
